@@ -389,8 +389,11 @@ def process (ctx : Ctx) (info : Opcodes.OpInfo) (p1 p2 : Nat) (index : Int) (st 
     | .error _ => pure (st.push (.leaf .propName (.s n) index))
   | "AssignPropertyOpcode" => do
     let n ← nameAt ctx p1
-    let left : Node := if ctx.props.contains n then .propAcc index (.leaf .node (.s (S "me")) index) n
-                       else .leaf .propName (.s n) index
+    let left : Node :=
+      if ctx.props.contains n then .propAcc index (.leaf .node (.s (S "me")) index) n
+      else match dictGet PropTables.knownPropertiesAssign n with
+        | .ok owner => .propAcc index (.leaf .localVar (.s owner) index) n     -- same object as LoadPropertyOpcode reads
+        | .error _ => .leaf .propName (.s n) index
     let (r, st) ← st.pop
     pure (st.addStmt index (assignNode index left r))
   | "AssignParameterOpcode" => do
